@@ -127,7 +127,7 @@ Ltac rd_step :=
     | rewrite u_enum_node by assumption
     | rewrite seq_of_exts by assumption
     | progress cbn [req opt app fst snd i_flag i_struct opt_explicit body_empty f_struct u_seq u_any
-                    option_map andb orb negb N.eqb Pos.eqb expl seq map] ].
+                    option_map andb orb negb N.eqb Pos.eqb expl seq gent oidn octets intn enumn nulln] ].
 
 Lemma parse_build_revoked tr :
   good_revoked (Some tr) ->
@@ -164,3 +164,273 @@ Proof.
     (destruct exts as [|e es]);
     repeat rd_step; rewrite ?Prk; repeat rd_step; reflexivity.
 Qed.
+
+Lemma seq_of_singles ws : Forall good_single ws -> seq_of parse_single (map build_single ws) = Some ws.
+Proof.
+  induction 1 as [|w ws Hw Hws IH]; [reflexivity|].
+  cbn [map]. destruct (parse_build_single w Hw) as (ks & -> & Hp).
+  cbn [seq_of]. change ((0 =? 0) && (16 =? 16)) with true. cbv iota. now rewrite Hp, IH.
+Qed.
+
+(* ---------- well-formedness of the built trees (tags < 31, classes < 4) ---------- *)
+Lemma wfb_build_ext e : wfb (build_ext e) = true.
+Proof. destruct e as [o [|] v]; reflexivity. Qed.
+
+Lemma forallb_map_wfb {A} (f : A -> dv) l : (forall x, wfb (f x) = true) -> forallb wfb (map f l) = true.
+Proof. intro H. induction l; cbn; [reflexivity|]. now rewrite H, IHl. Qed.
+
+Lemma wfb_build_single w : wfb (build_single w) = true.
+Proof.
+  destruct w as [ho nh kh ser good rev unk this next exts].
+  unfold build_single. cbn [w_good w_revoked w_unknown w_this w_next w_exts].
+  assert (Hk : forall l, forallb wfb (map build_ext l) = true)
+    by (intro l; apply forallb_map_wfb, wfb_build_ext).
+  destruct exts as [|e es]; [|specialize (Hk (e :: es)); set (kids := map build_ext (e :: es)) in *; clearbody kids];
+  destruct good, unk, rev as [[t r]|], (civil_eqb next zero_civil); unfold build_revoked; cbn [fst snd];
+    try destruct (Z.eqb r 0); cbn; rewrite ?Hk; reflexivity.
+Qed.
+
+Definition wf_rid (r : rid) : Prop := match r with ByName n => wfb n = true | ByKey _ => True end.
+
+Lemma wfb_build_tbs t :
+  wf_rid (t_rid t) -> forallb wfb (t_extra t) = true -> wfb (build_tbs t) = true.
+Proof.
+  intros Hr He. unfold build_tbs, seq. cbn [wfb]. change ((0 <? 4) && (16 <? 31)) with true. cbn [andb].
+  rewrite !forallb_app, He.
+  assert (H1 : forallb wfb (match t_version t with Some v => [expl 0 (intn v)] | None => [] end) = true)
+    by (destruct (t_version t); reflexivity).
+  rewrite H1. cbn [forallb andb]. change (wfb (gent (t_produced t))) with true.
+  assert (H2 : wfb (build_rid (t_rid t)) = true).
+  { destruct (t_rid t) as [n|h]; cbn in *; [now rewrite Hr | reflexivity]. }
+  rewrite H2. cbn [wfb seq andb]. change ((0 <? 4) && (16 <? 31)) with true. cbn [andb].
+  rewrite (forallb_map_wfb build_single _ wfb_build_single). reflexivity.
+Qed.
+
+Lemma wfb_build_basic b :
+  wf_rid (t_rid (b_tbs b)) -> forallb wfb (t_extra (b_tbs b)) = true -> forallb wfb (b_certs b) = true ->
+  wfb (build_basic b) = true.
+Proof.
+  intros Hr He Hc. unfold build_basic, seq. cbn [wfb]. change ((0 <? 4) && (16 <? 31)) with true. cbn [andb].
+  rewrite forallb_app. cbn [forallb]. rewrite (wfb_build_tbs _ Hr He).
+  assert (H1 : wfb (build_algid (b_sigoid b) (b_sigparams b)) = true) by (destruct (b_sigparams b); reflexivity).
+  rewrite H1. change (wfb (bitstr (b_sig b))) with true. cbn [andb].
+  destruct (b_certs b) as [|c cs] eqn:E; [reflexivity|]. cbn [forallb expl seq wfb].
+  change ((2 <? 4) && (0 <? 31)) with true. change ((0 <? 4) && (16 <? 31)) with true. cbn [andb].
+  cbn [forallb] in Hc. rewrite Hc. reflexivity.
+Qed.
+
+(* ---------- responseData, basicResponse, outer ---------- *)
+Lemma f_struct_node {A} (f : list dv -> option A) ks rest a :
+  f ks = Some a -> f_struct f (Cons 0 16 ks :: rest) = ROk a rest.
+Proof.
+  intro H. unfold f_struct, u_seq. change ((0 =? 0) && (16 =? 16)) with true. cbv iota. now rewrite H.
+Qed.
+
+Record good_tbs (t : wtbs) : Prop := {
+  gt_version : match t_version t with Some v => (length (enc_int v) <= 8)%nat | None => True end;
+  gt_produced : good_time (t_produced t);
+  gt_singles : Forall good_single (t_singles t) }.
+
+Lemma parse_build_tbs t : good_tbs t ->
+  exists ks, build_tbs t = Cons 0 16 ks /\
+             parse_tbs ks = Some (build_rid (t_rid t), t_produced t, t_singles t).
+Proof.
+  intros [Hv Hp Hs]. unfold build_tbs, seq. eexists; split; [reflexivity|].
+  unfold parse_tbs.
+  destruct (t_version t) as [v|]; destruct (t_rid t) as [n|h]; cbn [build_rid app];
+    repeat rd_step; rewrite ?u_int64_node by assumption; repeat rd_step;
+    rewrite seq_of_singles by assumption; reflexivity.
+Qed.
+
+Definition pbasic_of (b : wbasic) : pbasic :=
+  {| pb_tbs_raw := emit (build_tbs (b_tbs b)); pb_rid := build_rid (t_rid (b_tbs b));
+     pb_produced := t_produced (b_tbs b); pb_singles := t_singles (b_tbs b);
+     pb_sigoid := b_sigoid b; pb_sig := b_sig b; pb_certs := map emit (b_certs b) |}.
+
+Lemma parse_bitstring_aligned sg : parse_bitstring (0 :: sg) = Some sg.
+Proof.
+  unfold parse_bitstring. change (7 <? 0) with false. cbn [orb].
+  assert (H : (match sg with [] => negb (0 =? 0) | _ :: _ => false end) = false) by (destruct sg; reflexivity).
+  rewrite H. change (2 ^ 0) with 1. rewrite N.mod_1_r. reflexivity.
+Qed.
+
+Lemma parse_build_basic b :
+  good_tbs (b_tbs b) -> b_sigoid b <> [] ->
+  exists ks, build_basic b = Cons 0 16 ks /\ parse_basic ks = Some (pbasic_of b).
+Proof.
+  intros Ht Ho. unfold build_basic, seq. eexists; split; [reflexivity|].
+  destruct (parse_build_tbs _ Ht) as (tk & Etk & Ptk).
+  cbn [app parse_basic]. rewrite Etk. rewrite (f_struct_node parse_tbs tk [] _ Ptk). cbn [req].
+  assert (Pal : parse_algid ([oidn (b_sigoid b)] ++ (if b_sigparams b then [nulln] else [])) = Some (b_sigoid b)).
+  { unfold parse_algid. cbn [app]. rewrite u_oid_node by assumption. reflexivity. }
+  unfold build_algid at 1, seq at 1. rewrite (f_struct_node parse_algid _ _ _ Pal). cbn [req].
+  unfold u_bitstring, bitstr. rewrite (u_prim_node 3 parse_bitstring _ _ _ (parse_bitstring_aligned (b_sig b))).
+  cbn [req]. unfold pbasic_of. rewrite <- Etk.
+  destruct (b_certs b) as [|c cs]; [reflexivity|].
+  repeat rd_step. reflexivity.
+Qed.
+
+Lemma unmarshal_struct_emit {A} (f : list dv -> option A) ks a :
+  wfb (Cons 0 16 ks) = true -> f ks = Some a -> unmarshal_struct f (emit (Cons 0 16 ks)) = Some a.
+Proof.
+  intros Hw Hf. unfold unmarshal_struct.
+  rewrite <- (app_nil_r (emit (Cons 0 16 ks))), (parse_emit _ [] Hw).
+  now rewrite (f_struct_node f ks [] a Hf).
+Qed.
+
+Record good_basic (b : wbasic) : Prop := {
+  gb_tbs : good_tbs (b_tbs b);
+  gb_sigoid : b_sigoid b <> [];
+  gb_rid : wf_rid (t_rid (b_tbs b));
+  gb_extra : forallb wfb (t_extra (b_tbs b)) = true;
+  gb_certs : forallb wfb (b_certs b) = true }.
+
+Lemma bytes_eqb_refl_oid : bytes_eqb ocsp_basic_oid ocsp_basic_oid = true.
+Proof. reflexivity. Qed.
+
+Lemma ocsp_basic_oid_nonempty : ocsp_basic_oid <> [].
+Proof. discriminate. Qed.
+
+(* parsing what was built: the whole reader reduces to the acceptance step on the built values *)
+Theorem response_roundtrip sigok pcert b cert issuer :
+  good_basic b ->
+  parse_response_for_cert sigok pcert (build_response b) cert issuer =
+  accept_basic sigok pcert (pbasic_of b) cert issuer.
+Proof.
+  intros [Ht Ho Hr He Hc].
+  destruct (parse_build_basic b Ht Ho) as (bk & Ebk & Pbk).
+  assert (Hwb : wfb (build_basic b) = true) by now apply wfb_build_basic.
+  unfold parse_response_for_cert, build_response, build_outer.
+  assert (Hout : unmarshal_struct parse_outer
+            (emit (seq ([enumn 0] ++ [expl 0 (seq [oidn ocsp_basic_oid; octets (emit (build_basic b))])]))) =
+          Some (0%Z, ocsp_basic_oid, emit (build_basic b))).
+  { apply unmarshal_struct_emit; [reflexivity|].
+    unfold parse_outer. cbn [app]. rewrite u_enum_node by (cbn; lia). cbn [req].
+    repeat rd_step. rewrite u_oid_node by exact ocsp_basic_oid_nonempty. repeat rd_step. reflexivity. }
+  rewrite Hout. change (negb (0 =? 0)%Z) with false. cbv iota.
+  rewrite bytes_eqb_refl_oid. cbn [negb].
+  rewrite Ebk in *. rewrite (unmarshal_struct_emit parse_basic bk _ Hwb Pbk). reflexivity.
+Qed.
+
+(* ---------- the tables ---------- *)
+Lemma hash_table_consistent h o :
+  oid_of_hash h hash_oids = Some o ->
+  lookup_oid o (map (fun ho => (fst ho, snd ho)) hash_oids) = Some h /\ o <> [].
+Proof.
+  unfold hash_oids. cbn [oid_of_hash].
+  repeat (match goal with |- context[(h =? ?k)] => destruct (N.eqb_spec h k) as [->|_] end;
+          [intro E; inversion E; subst; split; [reflexivity|discriminate]|]).
+  discriminate.
+Qed.
+
+Lemma find_sigalg_nonempty a pk h o : find_sigalg a sigalg_oids = Some (pk, h, o) -> o <> [].
+Proof.
+  unfold sigalg_oids. cbn [find_sigalg].
+  repeat (match goal with |- context[(a =? ?k)] => destruct (N.eqb_spec a k) as [->|_] end;
+          [intro E; inversion E; subst; discriminate|]).
+  discriminate.
+Qed.
+
+Lemma signing_params_nonempty k rq h o p : signing_params k rq = Some (h, o, p) -> o <> [].
+Proof.
+  unfold signing_params.
+  destruct (k =? 1); [|destruct ((k =? 2) || (k =? 3)); [|destruct (k =? 4); [|destruct (k =? 5); [|discriminate]]]];
+    (destruct (rq =? 0); [intro E; inversion E; subst; discriminate|];
+     destruct (find_sigalg rq sigalg_oids) as [[[pk' h'] o']|] eqn:Ef; [|discriminate];
+     destruct (negb _); [discriminate|]; destruct (h' =? 0); [discriminate|];
+     intro E; inversion E; subst; eapply find_sigalg_nonempty; eauto).
+Qed.
+
+(* ---------- CreateResponse -> ParseResponse ---------- *)
+Record good_template (tp : template) : Prop := {
+  gtp_this : good_time (tp_this tp);
+  gtp_next : good_time (tp_next tp);
+  gtp_rev : good_time (tp_revoked_at tp);
+  gtp_reason : (length (enc_int (tp_reason tp)) <= 4)%nat;
+  gtp_exts : Forall good_ext (tp_exts tp);
+  gtp_nocrit : existsb e_crit (tp_exts tp) = false;
+  gtp_cert : match tp_cert tp with Some c => wfb c = true | None => True end }.
+
+Definition status_of_template (s : N) : N := if s =? 0 then 0 else if s =? 2 then 2 else 1.
+
+Definition tbs_of_template (tp : template) (hashoid nh kh : bytes) (responder : dv) (produced : civil) : wtbs :=
+  {| t_version := None; t_rid := ByName responder; t_produced := produced;
+     t_singles := [single_of_template tp hashoid nh kh]; t_extra := [] |}.
+Definition basic_of_template (tp : template) (hashoid nh kh : bytes) (responder : dv) (produced : civil)
+           (sigoid : bytes) (params : bool) (sg : bytes) : wbasic :=
+  {| b_tbs := tbs_of_template tp hashoid nh kh responder produced; b_sigoid := sigoid;
+     b_sigparams := params; b_sig := sg;
+     b_certs := match tp_cert tp with Some c => [c] | None => [] end |}.
+
+Lemma create_response_some tp keykind nh kh responder produced sg der tbs :
+  create_response tp keykind nh kh responder produced sg = Some (der, tbs) ->
+  exists hashoid hh sigoid params,
+    oid_of_hash (if tp_hash tp =? 0 then 3 else tp_hash tp) hash_oids = Some hashoid /\
+    signing_params keykind (tp_sigalg tp) = Some (hh, sigoid, params) /\
+    der = build_response (basic_of_template tp hashoid nh kh responder produced sigoid params sg) /\
+    tbs = emit (build_tbs (tbs_of_template tp hashoid nh kh responder produced)).
+Proof.
+  unfold create_response.
+  destruct (oid_of_hash _ hash_oids) as [hashoid|] eqn:Eh; [|discriminate].
+  destruct (signing_params keykind (tp_sigalg tp)) as [[[hh sigoid] params]|] eqn:Es; [|discriminate].
+  intro H. exists hashoid, hh, sigoid, params. injection H as H1 H2. subst der tbs. repeat split; reflexivity.
+Qed.
+
+Theorem create_response_roundtrip sigok pcert tp keykind nh kh responder produced sg der tbs issuer :
+  good_template tp -> wfb responder = true -> name_shape responder = true -> good_time produced ->
+  create_response tp keykind nh kh responder produced sg = Some (der, tbs) ->
+  forall emb,
+    (forall alg,
+       check_signatures sigok pcert issuer alg tbs sg
+         (match tp_cert tp with Some c => [emit c] | None => [] end) = Some emb) ->
+  exists r,
+    parse_response sigok pcert der issuer = Acc r /\
+    p_status r = status_of_template (tp_status tp) /\
+    p_revoked r = (status_of_template (tp_status tp) =? 1) /\
+    p_serial r = tp_serial tp /\ p_this r = tp_this tp /\ p_next r = tp_next tp /\
+    p_revoked_at r = (if tp_status tp =? 1 then tp_revoked_at tp else zero_civil) /\
+    p_reason r = (if tp_status tp =? 1 then tp_reason tp else 0%Z) /\
+    p_hash r = (if tp_hash tp =? 0 then 3 else tp_hash tp) /\
+    p_rname r = emit responder /\ p_rkey r = [] /\ p_exts r = tp_exts tp /\
+    p_produced r = produced /\ p_tbs r = tbs /\ p_sig r = sg /\ p_cert r = emb.
+Proof.
+  intros [Hthis Hnext Hrev Hreason Hexts Hcrit Hcert] Hwr Hnr Hprod Hc emb Hsig.
+  destruct (create_response_some _ _ _ _ _ _ _ _ _ Hc) as (hashoid & hh & sigoid & params & Eh & Es & -> & ->).
+  clear Hc. unfold basic_of_template, tbs_of_template.
+  destruct (hash_table_consistent _ _ Eh) as [Hlook Hne].
+  pose proof (signing_params_nonempty _ _ _ _ _ Es) as Hsne.
+  unfold parse_response. rewrite response_roundtrip.
+  2:{ constructor; cbn [b_tbs b_sigoid b_certs t_rid t_extra t_version t_produced t_singles wf_rid]; auto.
+      - constructor; cbn [t_version t_produced t_singles]; auto.
+        constructor; [|constructor].
+        constructor; cbn [single_of_template w_hashoid w_this w_next w_revoked w_exts]; auto.
+        destruct (tp_status tp =? 1); [|exact I].
+        destruct (civil_eqb (tp_revoked_at tp) zero_civil && (tp_reason tp =? 0)%Z); [exact I|].
+        split; assumption.
+      - destruct (tp_cert tp); cbn [forallb]; [now rewrite Hcert | reflexivity]. }
+  unfold accept_basic, pbasic_of.
+  cbn [pb_singles pb_rid pb_sigoid pb_tbs_raw pb_sig pb_certs pb_produced b_tbs b_sigoid b_sig b_certs
+       t_singles t_rid t_produced length Nat.eqb Nat.ltb Nat.leb orb select_single hd_error build_rid].
+  unfold responder_id. cbn [node_tag node_content flat_map N.eqb Pos.eqb].
+  rewrite app_nil_r, (parse_all_emit _ Hwr), Hnr.
+  assert (Hcerts : map emit (match tp_cert tp with Some c => [c] | None => [] end) =
+                   match tp_cert tp with Some c => [emit c] | None => [] end) by (destruct (tp_cert tp); reflexivity).
+  rewrite Hcerts.
+  match goal with |- context[check_signatures ?a ?b ?c ?d ?e ?f ?g] =>
+    replace (check_signatures a b c d e f g) with (Some emb) by (symmetry; apply Hsig) end.
+  cbn [single_of_template w_exts w_hashoid]. rewrite Hcrit, Hlook.
+  eexists; split; [reflexivity|].
+  cbn [p_status p_revoked p_serial p_this p_next p_revoked_at p_reason p_hash p_rname p_rkey p_exts
+       p_produced p_tbs p_sig p_cert w_good w_unknown w_revoked w_serial w_this w_next w_exts single_of_template].
+  unfold status_of_template.
+  repeat split; try reflexivity;
+  (destruct (tp_status tp =? 0) eqn:E0; destruct (tp_status tp =? 2) eqn:E2; destruct (tp_status tp =? 1) eqn:E1;
+    try (apply N.eqb_eq in E0; apply N.eqb_eq in E1; congruence);
+    try (apply N.eqb_eq in E0; apply N.eqb_eq in E2; congruence);
+    try (apply N.eqb_eq in E2; apply N.eqb_eq in E1; congruence);
+    cbn [negb andb fst snd];
+    try (destruct (civil_eqb (tp_revoked_at tp) zero_civil && (tp_reason tp =? 0)%Z) eqn:Ez; cbn [fst snd];
+         [apply andb_prop in Ez as [Ea Eb]; apply civil_eqb_eq in Ea; apply Z.eqb_eq in Eb; rewrite ?Ea, ?Eb|]);
+    reflexivity).
+Qed.
+
